@@ -320,7 +320,22 @@ static void *led_alloc(size_t n, int origin, int is_realloc)
     }
     e = lfind(p, 1);
     if (e->gen == lgen && e->state == 1) cjv_fatal("allocator returned a live block twice");
-    if (e->gen != lgen) { if (++lentries > (long)(LED_CAP * 3 / 4)) cjv_fatal("ledger table too full"); }
+    if (e->gen != lgen) {
+        if (++lentries > (long)(LED_CAP * 3 / 4)) {
+            if (cjv_in_lib) {
+                /* one case never holds anywhere near this many blocks: a library call that keeps
+                 * allocating is a runaway (e.g. a loop that no longer advances), the same class as a hang */
+                char line[300];
+                cjv_in_lib = 0;
+                fflush(cjv_log);
+                snprintf(line, sizeof line, "V %ld %ld runaway-allocation call=%s (%ld blocks requested within one case)\nX %ld %ld died\n",
+                         cjv_case_id, cjv_op_idx, cjv_cur_call ? cjv_cur_call : "-", lentries, cjv_case_id, cjv_op_idx);
+                { ssize_t r = write(fileno(cjv_log), line, strlen(line)); (void)r; }
+                _exit(3);
+            }
+            cjv_fatal("ledger table too full");
+        }
+    }
     e->p = p; e->size = n; e->serial = ++lserial; e->gen = lgen; e->mark = 0; e->origin = (uint8_t)origin; e->state = 1; e->efence = (uint8_t)efence_block;
     led.live_blocks++; led.live_bytes += (long)n;
     if (led.live_blocks > led.peak_blocks) led.peak_blocks = led.live_blocks;
